@@ -1,13 +1,97 @@
 package main
 
-import "golang.org/x/tools/go/ssa"
+// Modelled environments (DESIGN §5 C17, C19): an index-file model for the metric-log searcher and
+// the havoc'd framework environment of the adapters. Jobs that use them are engine-only.
 
-// intrinsicFiles: the modelled index-file environment of C17 (filled in with that check).
+import (
+	"fmt"
+	"go/types"
+
+	"golang.org/x/tools/go/ssa"
+)
+
+func errVal(what string) Iface { return Iface{t: opaqueErrType, v: Opaque{what}} }
+
+// intrinsicFiles: listMetricFiles -> harness-given names; os.Stat/Open/Seek/Close and binary.Read
+// operate on ghost index files given as sequences of 64-bit words, cut at a byte length.
 func (w *Worker) intrinsicFiles(s *State, f *Frame, name string, fn *ssa.Function, args []Value, adv func(Value) bool) bool {
+	if s.ghost["files"] == nil {
+		return false
+	}
+	switch name {
+	case modPrefix + "/core/log/metric.listMetricFiles":
+		return adv(Tuple{s.ghost["files"], Iface{}})
+	case "os.Stat":
+		if _, ok := s.ghost["file/"+args[0].(string)]; ok {
+			return adv(Tuple{Iface{}, Iface{}})
+		}
+		return adv(Tuple{Iface{}, errVal("os.ErrNotExist")})
+	case "os.Open":
+		if _, ok := s.ghost["file/"+args[0].(string)]; !ok {
+			return adv(Tuple{Ptr{}, errVal("os.ErrNotExist")})
+		}
+		fp := s.alloc(Tuple{args[0].(string), BV(64, 0)})
+		return adv(Tuple{fp, Iface{}})
+	case "(*os.File).Seek":
+		fp := args[0].(Ptr)
+		whence := asTerm(args[2])
+		switch whence.val {
+		case 0:
+			s.store(fp.field(1), args[1])
+		case 1:
+			s.store(fp.field(1), BinBV("bvadd", asTerm(s.load(fp.field(1))), asTerm(args[1])))
+		default:
+			unsupported("Seek whence %d in the file model", whence.val)
+		}
+		return adv(Tuple{s.load(fp.field(1)), Iface{}})
+	case "(*os.File).Close":
+		return adv(Iface{})
+	case "encoding/binary.Read":
+		fp := args[0].(Iface).v.(Ptr)
+		fname := s.load(fp.field(0)).(string)
+		pos := w.concretize(s, asTerm(s.load(fp.field(1))))
+		words := s.ghost["file/"+fname].(Tuple)
+		cut := uint64(len(words)) * 8
+		if c, ok := s.ghost["cut/"+fname].(*Term); ok {
+			cut = w.concretize(s, c)
+		}
+		eof := func(n string) Value {
+			g := w.eng.gByName[n]
+			if g == nil {
+				unsupported("no global %s", n)
+			}
+			return s.load(w.globalPtr(s, g))
+		}
+		if pos >= cut {
+			return adv(eof("io.EOF"))
+		}
+		if pos+8 > cut || pos%8 != 0 || int(pos/8) >= len(words) {
+			s.store(fp.field(1), BV(64, cut))
+			return adv(eof("io.ErrUnexpectedEOF"))
+		}
+		dst := args[2].(Iface).v.(Ptr)
+		val := words[pos/8]
+		// destination may be *uint64 or *int64: same 64-bit word
+		s.store(dst, val)
+		s.store(fp.field(1), BV(64, pos+8))
+		return adv(Iface{})
+	}
 	return false
 }
 
-// intrinsicEnv: verifrt functions of the adapter environment of C19 (filled in with that check).
+// intrinsicEnv: verifrt functions of the modelled environments.
 func (w *Worker) intrinsicEnv(s *State, f *Frame, name string, args []Value, adv func(Value) bool) bool {
+	switch name {
+	case "SetFiles":
+		s.ghost["files"] = args[0]
+		return adv(nil)
+	case "FileSet":
+		sl := args[1].(SliceV)
+		s.ghost["file/"+args[0].(string)] = append(Tuple(nil), s.sliceElems(sl)...)
+		s.ghost["cut/"+args[0].(string)] = asTerm(args[2])
+		return adv(nil)
+	}
+	_ = fmt.Sprint
+	_ = types.Typ
 	return false
 }
